@@ -28,29 +28,6 @@ theorem streamG_mem {γ : Type} (G : Gen γ) (cfg : Cfg) (g : γ) (n : Nat) (d :
       · exact ⟨g, h⟩
       · exact ih _ h
 
-theorem decideG_latency_pos {γ : Type} (G : Gen γ) (cfg : Cfg) (g : γ) (ms : Nat)
-    (h : (decideG G cfg g).1 = .latency ms) : cfg.lT > 0 := by
-  unfold decideG at h
-  by_cases hl : cfg.lT > 0
-  · exact hl
-  · exfalso
-    have hn : ¬ (cfg.lT > 0 ∧ (if cfg.eT > 0 then G.nextF g else (P53, g)).1 ≥ cfg.eT) := fun x => hl x.1
-    by_cases hlt : (if cfg.eT > 0 then G.nextF g else (P53, g)).1 < cfg.eT
-    · simp [hlt] at h
-    · simp [hlt, hn] at h
-
-theorem decideG_pass_rate {γ : Type} (G : Gen γ) (cfg : Cfg) (g : γ) (hL : Lawful cfg G)
-    (h : (decideG G cfg g).1 = .pass) : cfg.lT ≠ P53 := by
-  intro hl
-  unfold decideG at h
-  by_cases hlt : (if cfg.eT > 0 then G.nextF g else (P53, g)).1 < cfg.eT
-  · simp [hlt] at h
-  · have hp : (0 : Nat) < P53 := by decide
-    have hc : cfg.lT > 0 ∧ (if cfg.eT > 0 then G.nextF g else (P53, g)).1 ≥ cfg.eT := ⟨by omega, by omega⟩
-    have hr : (G.nextF (if cfg.eT > 0 then G.nextF g else (P53, g)).2).1 < cfg.lT := by rw [hl]; exact hL.roll _
-    simp only [hlt, if_false, hc, and_self, if_true, hr] at h
-    by_cases hm : cfg.maxMs > cfg.minMs <;> simp [hm] at h
-
 /-- error rate 1: the stream is "error" throughout, for every seed and every length -/
 theorem streamG_all_error {γ : Type} (G : Gen γ) (cfg : Cfg) (g : γ) (hL : Lawful cfg G) (he : cfg.eT = P53)
     (n : Nat) : streamG G cfg g n = List.replicate n .error := by
@@ -65,42 +42,48 @@ theorem streamG_all_pass {γ : Type} (G : Gen γ) (cfg : Cfg) (g : γ) (he : cfg
   | zero => rfl
   | succ n ih => simp only [streamG, decideG_zero G cfg g he hl, ih, List.replicate_succ]
 
-/-- the tallies of the first `k` decisions of every lawful seed's stream pass the model's check -/
-theorem stress_tally_allowed {γ : Type} (G : Gen γ) (cfg : Cfg) (g : γ) (hL : Lawful cfg G) (k : Nat) :
-    stressAllowed cfg k (tally (streamG G cfg g k)) = true := by
-  have htot := tally_total (streamG G cfg g k)
-  rw [streamG_length] at htot
-  have h1 : cfg.eT = P53 → (tally (streamG G cfg g k)).ne = k := by
+/-- **The model's check of a stress run accepts every list of allowed decisions**, whatever function produced
+them: one decision per call; error rate 1 ⇒ all fail; error rate 0 ⇒ none fails; latency rate 0 ⇒ none is delayed;
+latency rate 1 ⇒ none passes undelayed. -/
+theorem allowed_tally (cfg : Cfg) (l : List Decision) (hall : ∀ d ∈ l, allowedDec cfg d = true) :
+    stressAllowed cfg l.length (tally l) = true := by
+  have htot := tally_total l
+  have h1 : cfg.eT = P53 → (tally l).ne = l.length := by
     intro he
-    have hall : ∀ d ∈ streamG G cfg g k, (d == Decision.error) = true := by
+    have hall' : ∀ d ∈ l, (d == Decision.error) = true := by
       intro d hd
-      rw [streamG_all_error G cfg g hL he k] at hd
-      rw [List.eq_of_mem_replicate hd]; rfl
-    have hc := List.countP_eq_length.mpr hall
+      have := hall d hd
+      cases d with
+      | error => rfl
+      | latency ms => simp [allowedDec, he] at this
+      | pass => simp [allowedDec, he] at this
     simp only [tally]
-    rw [hc, streamG_length]
-  have h2 : cfg.eT = 0 → (tally (streamG G cfg g k)).ne = 0 := by
+    exact List.countP_eq_length.mpr hall'
+  have h2 : cfg.eT = 0 → (tally l).ne = 0 := by
     intro he
     simp only [tally, List.countP_eq_zero]
     intro d hd hbad
-    obtain ⟨g', rfl⟩ := streamG_mem G cfg g k d hd
-    have := (decideG_error_iff G cfg g').mp (by simpa using hbad)
-    omega
-  have h3 : cfg.lT = 0 → (tally (streamG G cfg g k)).nl = 0 := by
+    have := hall d hd
+    have hd' : d = .error := by simpa using hbad
+    subst hd'
+    simp [allowedDec, he] at this
+  have h3 : cfg.lT = 0 → (tally l).nl = 0 := by
     intro hl
     simp only [tally, List.countP_eq_zero]
     intro d hd hbad
-    obtain ⟨g', rfl⟩ := streamG_mem G cfg g k d hd
-    cases hdec : (decideG G cfg g').1 with
-    | latency ms => have := decideG_latency_pos G cfg g' ms hdec; omega
-    | error => rw [hdec] at hbad; simp [Decision.isLat] at hbad
-    | pass => rw [hdec] at hbad; simp [Decision.isLat] at hbad
-  have h4 : cfg.lT = P53 → (tally (streamG G cfg g k)).np = 0 := by
+    have := hall d hd
+    cases d with
+    | latency ms => simp [allowedDec, hl] at this
+    | error => simp [Decision.isLat] at hbad
+    | pass => simp [Decision.isLat] at hbad
+  have h4 : cfg.lT = P53 → (tally l).np = 0 := by
     intro hl
     simp only [tally, List.countP_eq_zero]
     intro d hd hbad
-    obtain ⟨g', rfl⟩ := streamG_mem G cfg g k d hd
-    exact decideG_pass_rate G cfg g' hL (by simpa using hbad) hl
+    have := hall d hd
+    have hd' : d = .pass := by simpa using hbad
+    subst hd'
+    simp [allowedDec, hl] at this
   unfold stressAllowed
   simp only [Bool.and_eq_true, Bool.or_eq_true, Bool.not_eq_true', decide_eq_true_eq, decide_eq_false_iff_not]
   refine ⟨⟨⟨⟨htot, ?_⟩, ?_⟩, ?_⟩, ?_⟩
@@ -116,6 +99,17 @@ theorem stress_tally_allowed {γ : Type} (G : Gen γ) (cfg : Cfg) (g : γ) (hL :
   · by_cases h : cfg.lT = P53
     · exact Or.inr (h4 h)
     · exact Or.inl h
+
+/-- the tallies of the first `k` decisions of every lawful seed's stream (today's decision function) pass the
+model's check -/
+theorem stress_tally_allowed {γ : Type} (G : Gen γ) (cfg : Cfg) (g : γ) (hL : Lawful cfg G) (k : Nat) :
+    stressAllowed cfg k (tally (streamG G cfg g k)) = true := by
+  have h := allowed_tally cfg (streamG G cfg g k) (by
+    intro d hd
+    obtain ⟨g', rfl⟩ := streamG_mem G cfg g k d hd
+    exact decideG_allowed G cfg g' hL)
+  rw [streamG_length] at h
+  exact h
 
 theorem equations_realised_stress : True := by
   have := @tally.eq_1
